@@ -74,6 +74,7 @@ CustomSan(fam, fn, p, x) ==
     [] fam = "float" /\ fn = "nan_to" -> IF IsNaN(x) THEN p[1] ELSE x        \* |v| if v.is_nan() { k } else { v }
     [] fam = "string" /\ fn = "rev"   -> NReverse(x)                          \* |s| s.chars().rev().collect()
     [] fam = "string" /\ fn = "bang"  -> Append(x, 33)                       \* |mut s| { s.push('!'); s }
+    [] fam = "string" /\ fn = "tag_a" -> Append(x, 65)                       \* |mut s| { s.push('A'); s }   (sensitive to a case mapping that runs before / after it)
     [] fam = "string" /\ fn = "take2" -> SubSeq(x, 1, IMin(2, Len(x)))       \* |s| s.chars().take(2).collect()
     [] fam = "any" /\ fn = "sort"     -> NSortSeq(x)                          \* |mut v| { v.sort(); v }
     [] fam = "any" /\ fn = "rev"      -> NReverse(x)
